@@ -88,39 +88,33 @@ def run(prop_id, tier, seed, replay=None):
             records = flat = [r for r in flat if r['i'] in only]
     log(f'[{prop_id}] driven {len(flat)} records {time.time() - t0:.1f}s')
 
-    # canaries: corrupted copies that the validator must reject
+    vkw = dict(timeout=getattr(mod, 'V_TIMEOUT', 1500))
+    bad, vstates, vtrans = vlib.validate(mod.TRACE_MODULE, records, os.path.join(work, 'v'), **vkw)
+
+    # canaries: corrupted copies of records that PASSED; the same validator must reject each of them
     crng = random.Random(seed * 7919 + 13)
     want = getattr(mod, 'CANARIES', 6)
     if hasattr(mod, 'make_canaries'):
-        canaries = mod.make_canaries(records, crng, want)     # list of record lists, corrupted records carry 'canary'
+        clean = [p for p in records if not any(r['i'] in bad for r in p)] if shard_lists else [r for r in flat if r['i'] not in bad]
+        canaries = mod.make_canaries(clean, crng, want)     # list of record lists, corrupted records carry 'canary'
     else:
         canaries = []
-        cand = list(flat)
+        cand = [r for r in flat if r['i'] not in bad]
         crng.shuffle(cand)
-        for r in cand:
+        for r in cand[:400]:
             if len(canaries) >= want:
                 break
             c = mod.canary(json.loads(json.dumps(r)), crng)
             if c is not None:
                 canaries.append(c)
-    if not canaries and not replay:
+    if not canaries and not replay and len(bad) < len(flat):
         raise MachineryError('no canary could be built')
-
-    vkw = dict(timeout=getattr(mod, 'V_TIMEOUT', 1500))
-    fv = pool.submit(vlib.validate, mod.TRACE_MODULE, records, os.path.join(work, 'v'), **vkw)
     if canaries:
-        if shard_lists:
-            cparts = [[c] if not isinstance(c, list) else c for c in canaries]
-        else:
-            cparts = [[c] for c in canaries]
-        fc = pool.submit(vlib.validate, mod.TRACE_MODULE, cparts, os.path.join(work, 'canary'), **vkw)
-    bad, vstates, vtrans = fv.result()
-    if canaries:
-        cbad, _, _ = fc.result()
-        for c in canaries:
-            ids = [x['i'] for x in c] if isinstance(c, list) else [c['i']]
-            marked = [x for x in (c if isinstance(c, list) else [c]) if x.get('canary')]
-            for x in marked or [c]:
+        cparts = [c if isinstance(c, list) else [c] for c in canaries]
+        cbad, _, _ = vlib.validate(mod.TRACE_MODULE, cparts, os.path.join(work, 'canary'), **vkw)
+        for c in cparts:
+            marked = [x for x in c if x.get('canary')]
+            for x in marked or c:
                 if x['i'] not in cbad:
                     raise MachineryError(f'canary accepted: corrupted record {x["i"]} ({x.get("canary")}) was not rejected')
     log(f'[{prop_id}] validated {time.time() - t0:.1f}s: {len(bad)} records with failed clauses')
